@@ -62,20 +62,6 @@ class ModSqrtVar:
         return 0 <= result < p and result * result % p == a % p
 
 
-@contract("btclib.number_theory.mod_inv_batch_var", types=dict(a="list[int;3]", m="int"), props="C01")
-class ModInvBatchVar3:
-    """Montgomery's trick, three operands (all values, any modulus)"""
-
-    def pre(m):
-        return m >= 2
-
-    def raises_BTClibValueError_only_if(a, m):
-        return True
-
-    def post_inverses(a, m, result):
-        return len(result) == 3 and all(0 <= r < m for r in result) and all((x * r) % m == 1 for x, r in zip(a, result))
-
-
 # ---------------------------------------------------------------- bounded stand-ins (native)
 def _is_prime(n):
     return n >= 2 and all(n % d for d in range(2, math.isqrt(n) + 1))
